@@ -20,6 +20,8 @@ type c18Case struct {
 	// MissingTarget: the file of one INCLUDE is removed from the project (the
 	// ban must be reported before the file is looked for).
 	MissingTarget bool `json:"missingTarget,omitempty"`
+	// BanSplit: pass the kinds as several options (see vlib.Project.BanSplit).
+	BanSplit int `json:"banSplit,omitempty"`
 }
 
 // kindName maps a keyword to the name of its directive kind in the library's table.
@@ -130,6 +132,10 @@ func c18Check(c c18Case, info *vlib.Info) *vlib.Failure {
 	}
 	with := p
 	with.Banned = c.Banned
+	with.BanSplit = c.BanSplit
+	if c.BanSplit > 0 && len(c.Banned) > c.BanSplit {
+		info.Class("several-option-values")
+	}
 	resBan := vlib.Run(with)
 	if resBan.Panic != "" {
 		return vlib.Failf("panic: "+resBan.Panic, "%s\nbanned %v\n%s", resBan.Panic, c.Banned, show())
@@ -138,12 +144,9 @@ func c18Check(c c18Case, info *vlib.Info) *vlib.Failure {
 	c.Doc.Flat().Walk(func(*vlib.Dir, *vlib.Dir) { n++ })
 	// occurrences that count: everything except directives inside a macro that
 	// is never pasted (such a macro contributes nothing)
-	var live []occurrence
-	for _, o := range occ {
-		if o.route != "in-unused-macro" {
-			live = append(live, o)
-		}
-	}
+	// every occurrence counts, also one inside a macro that is never pasted: the
+	// directive is written in the project
+	live := occ
 	for _, b := range c.Banned {
 		info.Class("ban:" + b)
 	}
@@ -151,10 +154,6 @@ func c18Check(c c18Case, info *vlib.Info) *vlib.Failure {
 		// (b) nothing banned occurs: exactly the result without the option
 		info.Class("absent")
 		info.NonTrivial = n >= 5
-		if len(occ) > 0 {
-			info.Class("only-in-unused-macro")
-			return nil // a banned kind inside a never-pasted macro: either verdict is defensible
-		}
 		resPlain := vlib.Run(p)
 		if resPlain.Accepted != resBan.Accepted || resPlain.JSON != resBan.JSON || (resPlain.Err != nil) != (resBan.Err != nil) ||
 			(resPlain.Err != nil && (resPlain.Err.Msg != resBan.Err.Msg || resPlain.Err.Index != resBan.Err.Index || resPlain.Err.File != resBan.Err.File)) {
@@ -208,10 +207,10 @@ func errMsg(r vlib.Result) string {
 func TestC18(t *testing.T) {
 	h := vlib.New(t, "C18", "fault_enumeration",
 		"option sets (every singleton of the 30 kinds, pairs with INCLUDE / MACRO / PASTE, sampled larger sets) x valid generated projects, cut into files or not, that do or do not hold a directive of a banned kind (directly, in a pasted macro, in an included file, in a never-pasted macro; INCLUDE also with its target file removed); oracle: occurrence => rejected with the 'not allowed' diagnostic at the keyword of a banned directive (so before the named file is needed), no occurrence => verdict, diagnostic and JSON identical to the run without the option; non-trivial = occurrence present, or absent with >= 5 directives; distinct by (project, option set)",
-		"a banned kind that only occurs inside a never-pasted macro carries no requirement (the macro contributes nothing)", "'before any file it names is read' is observed through a missing target: the diagnostic must be the ban, not 'isn't exists'")
+		"'before any file it names is read' is observed through a missing target: the diagnostic must be the ban, not 'isn't exists'")
 	defer vlib.CleanupScratch()
 	kinds := vlib.KindNames()
-	req := []string{"present", "absent", "route:direct", "route:included", "route:in-pasted-macro", "include-target-missing"}
+	req := []string{"present", "absent", "route:direct", "route:included", "route:in-pasted-macro", "route:in-unused-macro", "include-target-missing", "several-option-values"}
 	for _, k := range kinds {
 		req = append(req, "ban:"+k)
 	}
@@ -233,7 +232,7 @@ func TestC18(t *testing.T) {
 			banned = rapid.SliceOfNDistinct(rapid.SampledFrom(kinds), 2, 6, rapid.ID[string]).Draw(t, "set")
 		}
 		st := genStyle(t, !doc.Flat().HasMultilineFreeText())
-		return c18Case{Doc: doc, Banned: banned, Style: st, MissingTarget: rapid.Bool().Draw(t, "missingTarget")}
+		return c18Case{Doc: doc, Banned: banned, Style: st, MissingTarget: rapid.Bool().Draw(t, "missingTarget"), BanSplit: rapid.IntRange(0, 2).Draw(t, "banSplit")}
 	}
 	runRegression(h, c18Regression)
 	vlib.Rapid(h, "bans-over-generated-projects", h.N(20000, 600000), gen, c18Check)
